@@ -372,6 +372,10 @@ Definition explicit_of (cls call : level) : option bool :=
   | None => match cls with Some v => v | None => None end
   end.
 
+(* add_exception_view / add_notfound_view / add_forbidden_view: the API refuses a require_csrf argument and registers the
+   view with require_csrf=False itself (documented: these views are not subject to automatic CSRF checking) *)
+Definition special_explicit : option bool := Some false.
+
 (* The options utility is read when the view is DERIVED, i.e. when add_view's action runs.  Actions run
    ordered by (order, statement position): the utility is there iff the directive's action sorts first. *)
 Definition defaults_visible (stated_first : bool) : bool :=
@@ -748,12 +752,14 @@ Definition get_defaults (v : val) : option defaults :=
 Definition get_storage (v : val) : option storage :=
   match v with VI 0%Z => Some Legacy | VI 1%Z => Some Session | VI 2%Z => Some Cookie | _ => None end.
 
-(* the view option: [] / [b] (one level, as before) or [class level; call level], a level = [] | [[]] | [[b]] *)
+(* the view option: [] / [b] (one level, as before), [class level; call level] with a level = [] | [[]] | [[b]],
+   or [7] = registered through add_exception_view / add_notfound_view / add_forbidden_view *)
 Definition get_explicit (v : val) : option (option bool) :=
   match v with
   | VL [VL cls; VL call] =>
       olet cls := get_opt (get_opt get_bool) (VL cls) in olet call := get_opt (get_opt get_bool) (VL call) in
       Some (explicit_of cls call)
+  | VL [VI 7%Z] => Some special_explicit
   | _ => get_opt get_bool v
   end.
 
